@@ -276,6 +276,11 @@ func (pathTargets *pathSubqueryMetadata) extractKeys(node interface{}, path []Pa
 		return nil
 	}
 
+	// A null object has no key to extract and nothing to stitch results into.
+	if node == nil {
+		return nil
+	}
+
 	if len(path) == 0 {
 		obj, ok := node.(map[string]interface{})
 		if !ok {
